@@ -258,6 +258,9 @@ def text_pairs(g, n, thorough=False):
         k = r.random()
         nl = r.choice([1, 1, 2, 3, 5, 8, 12, 30]) if k < 0.9 else r.choice([210, 260])
         pool = [g.line((), ('cr',)) for _ in range(max(2, nl // 2))] + ([b'windows line\r', b'\r'] if r.random() < 0.3 else [])
+        if r.random() < 0.25:
+            # snapshots of coloured CLI output: the escape sequences are part of the lines
+            pool += [b'status: \x1b[31mFAIL\x1b[0m', b'status: \x1b[32mFAIL\x1b[0m', b'\x1b[1mbold\x1b[0m', b'status: FAIL']
         a = [r.choice(pool) for _ in range(nl)]
         b = list(a)
         for _ in range(r.choice([0, 1, 1, 2, 3])):
